@@ -10,14 +10,17 @@ def run(ctx):
     if not ctx.quick:
         ctx.exhaustive("Router_MC", "Router_MC_time", timeout=1800)
         ctx.exhaustive("Reuse_MC", "Reuse_MC", timeout=900)
-    d = os.path.dirname(ctx.path("c04", "x"))
-    ctx.driver(drv, ["-mode", "c04", "-dir", d] + (["-thorough"] if not ctx.quick else []), timeout=1800, ok_codes=(0, 3))
-    raw = os.path.join(d, "c04.ndjson")
-    part = os.path.join(d, "c04.part")
-    n = routerfam.partition_by_name(raw, part)
-    ctx.extra["question_partitions"] = n
-    routerfam.validate(ctx, part, only=["Inv_C04_", "Inv_C03_Header", "Inv_C03_Decodable", "Inv_C07_StoreOwnKey", "Inv_C07_KeyEq", "Inv_C10_ExactQuestion", "Unconsumable"],
-                       require_events=3000, timeout=3000)
+    # twice: with released buffers poisoned and quarantined (left-over data shows as garbage), and with released
+    # buffers handed straight back to the pool as in production (left-over data shows as another query's answer)
+    for tag, extra in (("c04", []), ("c04np", ["-nopoison"])):
+        d = os.path.dirname(ctx.path(tag, "x"))
+        ctx.driver(drv, ["-mode", "c04", "-dir", d] + extra + (["-thorough"] if not ctx.quick else []), timeout=1800, ok_codes=(0, 3))
+        raw = os.path.join(d, "c04.ndjson")
+        part = os.path.join(d, "c04.part")
+        n = routerfam.partition_by_name(raw, part)
+        ctx.extra["question_partitions"] = n
+        routerfam.validate(ctx, part, only=["Inv_C04_", "Inv_C03_Header", "Inv_C03_Decodable", "Inv_C03_Answered", "Inv_C03_AtMostOne", "Inv_C07_StoreOwnKey", "Inv_C07_KeyEq", "Inv_C10_ExactQuestion", "Unconsumable"],
+                           require_events=3000, timeout=3000)
     ctx.assumptions += [
         "schedules of the real code are sampled (48-96 concurrent clients over all 8 listener kinds, 4 upstream transports (udp, tcp, tcp+pipeline, DoH over http), eviction pressure, refresh windows, a reply arriving after the 6 s response timeout); interleavings are enumerated only in the component models (Pipeline, Reuse, Router)",
         "the trace is projected per question name before validation (per-question invariants; keeps TLC's state small): an answer that belongs to another question shows up as a token unknown in this question's partition",
